@@ -1297,7 +1297,7 @@ def reader_exec(ctx, dec, rp, kind, flag, pack, counts):
         for a, b in lasts:
             body = prefix + [a, b]
             frame = [(flag << 7) | c] + [(body[2 * i] << 4) | body[2 * i + 1] for i in range(c)]
-            r = run_const(ctx.repo, dec, rp, [kind, frame])
+            r = run_const(ctx.repo, dec, rp, [kind, list(frame)])      # (the reader consumes the list it is given)
             nframes += 1
             if r[0] == "unknown":
                 return ("unknown", r[1])
